@@ -48,6 +48,8 @@ def export(family, depth=2):
 
 def mirror(tr, exp):
     """Python-side reading of the same verdict: None if every thread's observation equals Den (where defined)."""
+    if not tr.get("reg_ok", True):
+        return "a process-global registry (rule tables, notrace sets, box / vspace mappings) was altered by a differentiation call"
     for th, (o, d) in enumerate(zip(tr["obs"], exp["den"])):
         if d["k"] == "unknown":
             continue
